@@ -7,7 +7,7 @@ src = f"/tmp/seed/out_{prop}/{var}" if wave == "1" else f"/tmp/seed/out{wave}_{p
 name = var if wave == "1" else {"2": {"a": "c", "b": "d"}, "4": {"a": "e", "b": "f"}}[wave][var]
 dst = f"/verif/seeded/{prop}{name}"
 env = dict(os.environ)
-if "-race" in open(src + "/README.md").read():
+if "-race" in open(src + "/README.md").read() and not os.environ.get("NORACE"):
     env["RACE"] = "-race"
 out = subprocess.run(["/verif/tools/seedcheck.sh", src], capture_output=True, text=True, env=env).stdout
 lines = out.splitlines()
@@ -33,7 +33,7 @@ meta = {
  "origin": "independent sub-agent given only the property text and its own scratch worktree of /repo (no access to /verif)",
  "needs_to_manifest": readme.strip().splitlines()[:40],
  "confirmed": {"demo_passes_on_unchanged_tree": ok_unchanged, "existing_suite_passes_with_change": suite_ok, "demo_fails_with_change": demo_fails,
-               "command": "tools/seedcheck.sh seeded/%s%s  (scratch copy of /repo under /tmp, removed afterwards%s)" % (prop, name, "; demo run with -race" if env.get("RACE") else "")},
+               "command": "tools/seedcheck.sh seeded/%s%s  (scratch copy of /repo under /tmp, removed afterwards%s)" % (prop, name, ("; demo run with -race" if env.get("RACE") else "") + ("; DEMOARCH=386" if env.get("DEMOARCH") == "386" else ""))},
  "checks_that_report_it": fired,
  "first_obligation_per_check": first,
  "detected_by_own_property_check": prop in fired,
